@@ -216,4 +216,11 @@ theorem expand_gap (R : Nat) :
     have : ((2 : Nat) + ((↑(R + 2) : Int) - (↑(R + 4) : Int))).toNat = 0 := by omega
     rw [this, adjust_succ, s0, if_neg (by omega), if_pos (by omega)]
 
+/-- The limit of the second sentence of the property is sharp *as specified*: `limit` bytes
+pass, `limit + 1` do not.  (That the reference server and client behave like `accepts` is
+connect-go's `WithReadMaxBytes`; it is observed end to end by the `sharp` operation of the
+correspondence run - implementation half only, no model of connect-go.) -/
+theorem accepts_sharp (limit : Nat) : accepts limit limit = true ∧ accepts limit (limit + 1) = false := by
+  simp [accepts]
+
 end ConfModel.Props.C19
